@@ -127,6 +127,10 @@ reg("C43", "differential runtime monitor against analytic inclusion predicates",
     "Spheres, cylinders, polygons on uniform and stretched grids.", _TB)
 
 
+# ids whose check has been validated on the unchanged tree (quick tier silent, evidence valid)
+READY = {"C01", "C02", "C03", "C04", "C05", "C06"}
+
+
 def build_manifest():
     checks = []
     na = []
@@ -134,7 +138,7 @@ def build_manifest():
     for p in props:
         pid = p["id"]
         mod = os.path.join(ROOT, "vf", "checks", pid.lower() + ".py")
-        if not os.path.exists(mod) or pid not in R:
+        if not os.path.exists(mod) or pid not in R or pid not in READY:
             na.append({"property_id": pid, "reason": "check not built yet in this revision of /verif (planned in DESIGN.md section 5)"})
             continue
         tech, text, note = R[pid]
